@@ -9,6 +9,10 @@ Reads, with Python `ast` only (nothing is imported or executed):
   mem_trigger.py         claim_trigger_run / store_last_cron_execution: read-test-write inside `with self.<lock>`
   sqlite_trigger.py      same two methods: BEGIN IMMEDIATE before the SELECT inside the connection block
   conditions/*.py        context_id f-strings; cron defaults and the two comparison operators
+  base_trigger.py        _should_trigger_cron_condition: is the stored last execution read from the store on every poll that
+                         passes the cache short cut, and is that value the expectation of the compare-and-swap
+  mem/sqlite_trigger.py  get_conditions_sourced_from_task: exact context-type filter; get_valid_conditions: every pending
+                         entry is returned (no WHERE / LIMIT / partial fetch)
 Fail-closed: an unrecognised shape raises TranslateError (the check then falls back to gen_default and to the
 differential correspondence).
 """
@@ -32,7 +36,7 @@ EXPECTED_SHAPES = {
     "ContextTypeArgumentProvider.get_arguments": "07be867b1bdf",
     "CompositeArgumentProvider.get_arguments": "48e3bdfea727",
     "CronCondition._is_satisfied_by": "bc61f38e4baa",
-    "BaseTrigger._should_trigger_cron_condition": "5cf43be87bbe",
+    "BaseTrigger._should_trigger_cron_condition": "3d996b632023",
     "BaseTrigger.check_time_based_triggers": "5fb7ef18a4f6",
 }
 
@@ -288,19 +292,49 @@ def cron_facts(tree: ast.Module) -> dict:
             "min_interval_strict": isinstance(mi[0].ops[0], ast.Lt)}
 
 
+def _storage_read(fn: ast.FunctionDef) -> tuple[int, bool]:
+    """index of the top-level statement that assigns the stored last execution the method goes on with, and whether
+    that value is `self.get_last_cron_execution(...)` itself (read on every poll that gets this far) or an expression
+    that merely contains the read (`cached or self.get_...`, a conditional expression, ...: the store may be skipped)"""
+    top = fn.body
+    rd = [(i, s) for i, s in enumerate(top) if isinstance(s, (ast.Assign, ast.AnnAssign)) and s.value is not None
+          and any(_is_self_call(n, "get_last_cron_execution") for n in ast.walk(s.value))]
+    wr = [i for i, s in enumerate(top) if isinstance(s, ast.Assign) and _is_self_call(s.value, "store_last_cron_execution")]
+    if len(rd) != 1 or len(wr) != 1 or not rd[0][0] < wr[0]:
+        raise TranslateError("_should_trigger_cron_condition: read / compare-and-swap order not recognised")
+    i, st = rd[0]
+    tgt = st.targets[0] if isinstance(st, ast.Assign) else st.target
+    if not isinstance(tgt, ast.Name):
+        raise TranslateError("_should_trigger_cron_condition: stored last execution is not bound to a name")
+    # the compare-and-swap must expect exactly that name
+    cas = top[wr[0]].value
+    exp = [k.value for k in cas.keywords if k.arg == "expected_last_execution"] or cas.args[2:3]
+    if len(exp) != 1 or not (isinstance(exp[0], ast.Name) and exp[0].id == tgt.id):
+        raise TranslateError("_should_trigger_cron_condition: compare-and-swap does not expect the value read from the store")
+    # an earlier statement that can return must be the cache short cut only (nested under `if cached_...:`)
+    always = _is_self_call(st.value, "get_last_cron_execution")
+    if not always and not isinstance(st.value, (ast.BoolOp, ast.IfExp)):
+        raise TranslateError("_should_trigger_cron_condition: unrecognised expression around the storage read")
+    for later in top[i + 1:wr[0]]:
+        for n in ast.walk(later):
+            if isinstance(n, (ast.Assign, ast.AugAssign, ast.AnnAssign)):
+                t = n.targets[0] if isinstance(n, ast.Assign) else n.target
+                if isinstance(t, ast.Name) and t.id == tgt.id:
+                    always = False       # re-bound between the read and the compare-and-swap
+    return i, always
+
+
 def first_poll_checked(fn: ast.FunctionDef) -> bool:
     """between reading the stored last execution and the compare-and-swap: is `if not condition.is_satisfied_by(context):
     return None` a statement of the function body itself (always evaluated) or only nested under `if storage_last_execution:`"""
     top = fn.body
-    rd = [i for i, s in enumerate(top) if isinstance(s, ast.Assign) and _is_self_call(s.value, "get_last_cron_execution")]
+    rd0, _ = _storage_read(fn)
     wr = [i for i, s in enumerate(top) if isinstance(s, ast.Assign) and _is_self_call(s.value, "store_last_cron_execution")]
-    if len(rd) != 1 or len(wr) != 1 or not rd[0] < wr[0]:
-        raise TranslateError("_should_trigger_cron_condition: read / compare-and-swap order not recognised")
 
     def is_check(s):
         return (isinstance(s, ast.If) and ast.unparse(s.test).replace(" ", "") == "notcondition.is_satisfied_by(context)"
                 and len(s.body) == 1 and isinstance(s.body[0], ast.Return))
-    between = top[rd[0] + 1:wr[0]]
+    between = top[rd0 + 1:wr[0]]
     if any(is_check(s) for s in between):
         return True
     nested = [s for s in between if isinstance(s, ast.If) and ast.unparse(s.test) == "storage_last_execution"
@@ -308,6 +342,86 @@ def first_poll_checked(fn: ast.FunctionDef) -> bool:
     if len(nested) == 1:
         return False
     raise TranslateError("_should_trigger_cron_condition: schedule check after the storage read not recognised")
+
+
+# ------------------------------------------------------------------ occurrence routing / pending read
+def source_filter_exact(fn: ast.FunctionDef) -> bool:
+    """get_conditions_sourced_from_task(task_id, context_type): under `if context_type is not None:` the conditions are
+    filtered with `cond.context_type == context_type` (exact type: a result / exception report never reaches the status
+    conditions although ResultContext and ExceptionContext subclass StatusContext).  Any other filter -> False."""
+    ifs = [n for n in ast.walk(fn) if isinstance(n, ast.If)
+           and ast.unparse(n.test).replace(" ", "") == "context_typeisnotNone"]
+    if len(ifs) != 1:
+        raise TranslateError(f"{fn.name}: expected one `if context_type is not None:`")
+    comps = [n for s in ifs[0].body for n in ast.walk(s) if isinstance(n, ast.ListComp)]
+    if len(comps) != 1 or len(comps[0].generators) != 1 or len(comps[0].generators[0].ifs) != 1:
+        raise TranslateError(f"{fn.name}: context-type filter is not one filtered comprehension")
+    g = comps[0].generators[0]
+    if not isinstance(g.target, ast.Name) or ast.unparse(comps[0].elt) != g.target.id:
+        raise TranslateError(f"{fn.name}: context-type filter maps its elements")
+    v = g.target.id
+    t = ast.unparse(g.ifs[0]).replace(" ", "")
+    if t in (f"{v}.context_type==context_type", f"context_type=={v}.context_type",
+             f"{v}.context_typeiscontext_type", f"context_typeis{v}.context_type"):
+        return True
+    if "issubclass(" in t or "isinstance(" in t or "__mro__" in t:
+        return False
+    raise TranslateError(f"{fn.name}: unrecognised context-type filter `{t}`")
+
+
+def pending_read_complete_sqlite(fn: ast.FunctionDef) -> bool:
+    """get_valid_conditions: one SELECT over the valid-conditions table without WHERE / LIMIT / OFFSET / JOIN / GROUP,
+    every fetched row returned (fetchall + a dict comprehension without filter)"""
+    calls = [n for n in ast.walk(fn) if isinstance(n, ast.Call) and isinstance(n.func, ast.Attribute)
+             and n.func.attr == "execute"]
+    if len(calls) != 1:
+        raise TranslateError(f"{fn.name}: expected one SQL statement")
+    sql = " ".join(_sql_full(calls[0]).split())
+    if not sql.startswith("SELECT"):
+        raise TranslateError(f"{fn.name}: statement is not a SELECT")
+    whole = not any(k in f" {sql} " for k in (" WHERE ", " LIMIT ", " OFFSET ", " JOIN ", " GROUP ", " HAVING ", " DISTINCT "))
+    fetch = [n.func.attr for n in ast.walk(fn) if isinstance(n, ast.Call) and isinstance(n.func, ast.Attribute)
+             and n.func.attr.startswith("fetch")]
+    if fetch in (["fetchmany"], ["fetchone"]):
+        whole = False
+    elif fetch != ["fetchall"]:
+        raise TranslateError(f"{fn.name}: unrecognised fetch {fetch}")
+    rets = [n for n in ast.walk(fn) if isinstance(n, ast.Return)]
+    if len(rets) != 1 or not isinstance(rets[0].value, ast.DictComp):
+        raise TranslateError(f"{fn.name}: result is not one dict comprehension")
+    gens = rets[0].value.generators
+    if len(gens) != 1 or gens[0].ifs or not isinstance(gens[0].iter, ast.Name):
+        raise TranslateError(f"{fn.name}: result comprehension filters or slices the fetched rows")
+    return whole
+
+
+def _sql_full(call: ast.Call) -> str:
+    """SQL text of an execute call, also when it is built from adjacent / concatenated (f-)strings"""
+    if not call.args:
+        return ""
+
+    def txt(a):
+        if isinstance(a, ast.Constant) and isinstance(a.value, str):
+            return a.value
+        if isinstance(a, ast.JoinedStr):
+            return "".join(v.value if isinstance(v, ast.Constant) else "?" for v in a.values)
+        if isinstance(a, ast.BinOp) and isinstance(a.op, ast.Add):
+            return txt(a.left) + txt(a.right)
+        raise TranslateError("SQL text is not a literal")
+    return txt(call.args[0]).strip().upper()
+
+
+def pending_read_complete_mem(fn: ast.FunctionDef) -> bool:
+    """get_valid_conditions: returns self._valid_conditions.copy() / dict(self._valid_conditions) (every pending entry)"""
+    body = [s for s in fn.body if not (isinstance(s, ast.Expr) and isinstance(s.value, ast.Constant))]
+    if len(body) != 1 or not isinstance(body[0], ast.Return):
+        raise TranslateError(f"{fn.name}: not a single return")
+    t = ast.unparse(body[0].value).replace(" ", "")
+    if t in ("self._valid_conditions.copy()", "dict(self._valid_conditions)", "{**self._valid_conditions}"):
+        return True
+    if "islice(" in t or "[:" in t or "max_events_batch_size" in t:
+        return False
+    raise TranslateError(f"{fn.name}: unrecognised result `{t}`")
 
 
 def _b(x: bool) -> str:
@@ -350,6 +464,11 @@ def extract(repo: str) -> tuple[dict, dict]:
     f["status_ctx_inv_and_status"] = sorted(sa) == ["invocation_id", "status"]
     f.update({"cron_" + k: v for k, v in cron_facts(cron).items()})
     f["cron_first_poll_checked"] = first_poll_checked(_method(base, "BaseTrigger", "_should_trigger_cron_condition"))
+    f["cron_storage_read_always"] = _storage_read(_method(base, "BaseTrigger", "_should_trigger_cron_condition"))[1]
+    f["mem_source_filter_exact"] = source_filter_exact(_method(mem, "MemTrigger", "get_conditions_sourced_from_task"))
+    f["sqlite_source_filter_exact"] = source_filter_exact(_method(sql, "SQLiteTrigger", "get_conditions_sourced_from_task"))
+    f["mem_pending_read_complete"] = pending_read_complete_mem(_method(mem, "MemTrigger", "get_valid_conditions"))
+    f["sqlite_pending_read_complete"] = pending_read_complete_sqlite(_method(sql, "SQLiteTrigger", "get_valid_conditions"))
 
     shapes = {
         "TriggerDefinition.generate_trigger_run_ids": _shape(_method(tdefs, "TriggerDefinition", "generate_trigger_run_ids")),
@@ -394,6 +513,11 @@ def emit(f: dict) -> str:
         ("f_cron_window_inclusive", _b(f["cron_window_inclusive"])),
         ("f_cron_min_interval_strict", _b(f["cron_min_interval_strict"])),
         ("f_cron_first_poll_checked", _b(f["cron_first_poll_checked"])),
+        ("f_cron_storage_read_always", _b(f["cron_storage_read_always"])),
+        ("f_mem_source_filter_exact", _b(f["mem_source_filter_exact"])),
+        ("f_sqlite_source_filter_exact", _b(f["sqlite_source_filter_exact"])),
+        ("f_mem_pending_read_complete", _b(f["mem_pending_read_complete"])),
+        ("f_sqlite_pending_read_complete", _b(f["sqlite_pending_read_complete"])),
     ]
     lines = [
         "(* GENERATED by harness/translate/trigger.py from pynenc/trigger/*.py.",
